@@ -856,6 +856,22 @@ func runReplay(file string) int {
 	c := newCtx(p, rp.Tier, rp.Seed, rp.Case, dir)
 	c.Verbose = true
 	runCaseProtected(c)
+	// parent-side offline monitors (race logs, counter sums) over this one case
+	if p.Post != nil && rp.Property != "C01" {
+		agg := &Agg{Prop: p, Tier: rp.Tier, Seed: rp.Seed, Dir: dir, Cases: 1, Counters: map[string]int64{},
+			Keys: map[string]map[uint64]struct{}{}, Blobs: map[int]map[string]string{}, Extra: map[string]interface{}{}}
+		if c.out.Blob != nil {
+			agg.Blobs[rp.Case] = c.out.Blob
+		}
+		func() {
+			defer func() { recover() }()
+			p.Post(agg)
+		}()
+		for _, v := range agg.Violations {
+			c.out.Violations = append(c.out.Violations, v.V)
+			fmt.Printf("  violation class=%s: %s\n", v.V.Class, v.V.Msg)
+		}
+	}
 	known := loadKnown()
 	n := 0
 	for _, v := range c.out.Violations {
